@@ -400,8 +400,29 @@ def plainChar (c : Char) : Bool :=
 
 def plainStr (s : Str) : Bool := s.all plainChar
 
-/-- No static token contains a format / quoting character (finding prefix-token-format-chars). -/
-def plainTokens (ts : List Tok) : Bool := ts.all fun t => t.isVar || plainStr t.text
+/-- Every static token consists of characters satisfying `P`. -/
+def tokensOk (P : Char → Bool) (ts : List Tok) : Bool := ts.all fun t => t.isVar || t.text.all P
+
+/-- No static token contains any format / quoting character: safe in every language. -/
+def plainTokens (ts : List Tok) : Bool := tokensOk plainChar ts
+
+/-- The EXACT class of the finding prefix-token-format-chars (known/c08_format_chars_expected.json,
+re-established against the real generators on every run): the characters of a static token that
+language `l` does not read as text, depending on whether the prefix has variables (`hv`).
+Without variables the prefix is pasted into a plain string literal (only the quote and the
+backslash matter; Dart literals are always interpolated: `$`); with variables it becomes a
+`fmt.Sprintf` / `String.format` format (`%`), a `str.format` format (`{` `}`), or goes through
+`Sprintf` at generation time and Dart interpolation (`%`, `$`). -/
+def hazard (l : Lang) (hv : Bool) (c : Char) : Bool :=
+  match l with
+  | .go | .java => c == '"' || c == '\\' || (hv && c == '%')
+  | .dart => c == '\'' || c == '\\' || c == '$' || (hv && c == '%')
+  | .py | .pyAsyncio | .pyTornado => c == '\'' || c == '\\' || (hv && (c == '{' || c == '}'))
+
+def safeChar (l : Lang) (hv : Bool) (c : Char) : Bool := !hazard l hv c
+
+/-- The static tokens of the scope are outside the finding's class for language `l`. -/
+def safeTokens (l : Lang) (sc : Scope) : Bool := tokensOk (safeChar l (!sc.vars.isEmpty)) sc.pfx
 
 def lastIsVar : List Tok → Bool
   | [] => false
